@@ -439,7 +439,7 @@ func (e *Engine) copyValue(m MV, addr atree.Address) (atree.Value, MV, error) {
 		}
 		return Some{V: v}, MSome{V: mv}, nil
 	case *Node:
-		if x.IsMap && !x.TI.Comp && e.excludeF4() {
+		if x.IsMap && (!x.TI.Comp || e.Cfg.HipGroups > 0) && e.excludeF4() {
 			e.Stats.Add("excluded_known_F4", 1)
 			return U64(uint64(len(x.Ents))), U64(uint64(len(x.Ents))), nil
 		}
